@@ -4,6 +4,7 @@ import CstModel.Driver.GreenArea
 import CstModel.Driver.RedArea
 import CstModel.Driver.TextArea
 import CstModel.Driver.SerdeArea
+import CstModel.Driver.DeriveArea
 open Cst Cst.Drv
 
 def sessionStep (s : DState) : List String → Option (DState × String)
@@ -50,7 +51,10 @@ def stepLine (s : DState) (line : String) : DState × String :=
               | none =>
                 match serdeStep s ws with
                 | some r => r
-                | none => (s, "bad-op")
+                | none =>
+                  match deriveStep s ws with
+                  | some r => r
+                  | none => (s, "bad-op")
 
 partial def loop (h : IO.FS.Stream) (out : IO.FS.Stream) (s : DState) : IO Unit := do
   let line ← h.getLine
